@@ -10,6 +10,24 @@ from ..util import Poly, maxabs, monomials_tensor, monomials_total, random_rotat
 HESS_FAMILIES = {"quad", "quad8", "hexahedron", "triangle", "triangleMINI", "tetra", "tetraMINI"}
 
 
+
+class BodyPoly:
+    """A polynomial in coordinates scaled to the body (O(1) values, gradients O(1/size), hessians O(1/size^2) on meshes of any length
+    unit); `X` are the points of the body."""
+    def __init__(self, p, X):
+        self.p = p
+        self.X0, self.L = X.mean(0), float(np.ptp(X, axis=0).max())
+
+    def __call__(self, Y):
+        return self.p((Y - self.X0) / self.L)
+
+    def grad(self, Y):
+        return self.p.grad((Y - self.X0) / self.L) / self.L
+
+    def hess(self, Y):
+        return self.p.hess((Y - self.X0) / self.L) / self.L ** 2
+
+
 def physical_qp(region):
     """Physical coordinates of the quadrature points (geometry = nodal functions, bubbles excluded)."""
     nn = MR.nodal_count(region)
@@ -58,7 +76,7 @@ def case_family(fam, geometry, rep):
                                 "sum_dV": float(reg.dV.sum()), "expected": info["volume"]})
         # --- rigid motion invariance of every dV
         Q = random_rotation(rng, dim)
-        t = rng.uniform(-2, 2, dim)
+        t = rng.uniform(-2, 2, dim) * float(np.ptp(mesh.points, axis=0).max())  # in units of the body
         mesh2 = mesh.copy(points=mesh.points @ Q.T + t)
         reg2 = gen.make_region(fam, mesh2)
         run.compare(mon, "template=%s geometry=%s clause=rigid-motion" % (fam, geometry),
@@ -349,7 +367,7 @@ def case_paths(rep):
         eye = np.eye(dim).reshape(dim, dim, 1, 1)
 
         def sample():
-            polys = [Poly(rng, dim, exps) for _ in range(dim)]
+            polys = [BodyPoly(Poly(rng, dim, exps), X) for _ in range(dim)]
             return polys, np.stack([p(X) for p in polys], axis=1)
 
         def refs(polys, Xq):
@@ -414,7 +432,7 @@ def case_paths(rep):
                     "after mesh.update(callback=region.reload) the differential volumes do not measure the new geometry", unit="paths:reload", config=(fam, "reload"))
         Xn = mesh.points
         Xqn = np.einsum("caI,aq->qcI", Xn[mesh.cells], hq)
-        polys4 = [Poly(rng, dim, monomials_total(dim, 1)) for _ in range(dim)]
+        polys4 = [BodyPoly(Poly(rng, dim, monomials_total(dim, 1)), Xn) for _ in range(dim)]
         f4 = fem.Field(reg, dim=dim, values=np.stack([p(Xn) for p in polys4], axis=1))
         g4 = np.stack([np.moveaxis(p.grad(Xqn), -1, 0) for p in polys4], 0)
         hs4 = float(np.min(Xn[mesh.cells].max(1) - Xn[mesh.cells].min(1)))
@@ -422,7 +440,7 @@ def case_paths(rep):
                     "after reload the gradient of a linear function on the new geometry is wrong", unit="paths:reload")
         r2 = reg.copy(hess=True) if fam in HESS_FAMILIES else None
         if r2 is not None:
-            pq = [Poly(rng, dim, monomials_total(dim, 2 if Fm["order"] >= 2 else 1)) for _ in range(1)]
+            pq = [BodyPoly(Poly(rng, dim, monomials_total(dim, 2 if Fm["order"] >= 2 else 1)), Xn) for _ in range(1)]
             fh = fem.Field(r2, dim=1, values=np.stack([p(Xn) for p in pq], axis=1))
             href = np.stack([np.moveaxis(p.hess(Xqn), (-2, -1), (0, 1)) for p in pq], 0)
             run.compare(mon, "template=%s clause=copy-hess" % fam, maxabs(fh.hess() - href) * hs4 ** 2 / max(1.0, maxabs(fh.values)), 1e-9,
@@ -443,7 +461,7 @@ def case_paths(rep):
                     unit="paths:bare-reload", config=(fam, "bare-reload"))
         X5 = mesh.points
         Xq5 = np.einsum("caI,aq->qcI", X5[mesh.cells], hq)
-        polys5 = [Poly(rng, dim, monomials_total(dim, 1)) for _ in range(dim)]
+        polys5 = [BodyPoly(Poly(rng, dim, monomials_total(dim, 1)), X5) for _ in range(dim)]
         f5 = fem.Field(reg, dim=dim, values=np.stack([p(X5) for p in polys5], axis=1))
         g5 = np.stack([np.moveaxis(p.grad(Xq5), -1, 0) for p in polys5], 0)
         hs5 = float(np.min(X5[mesh.cells].max(1) - X5[mesh.cells].min(1)))
@@ -464,7 +482,7 @@ def case_paths(rep):
             ldim = 3
         lh = np.array([lreg.element.function(pt) for pt in lreg.quadrature.points]).T
         lXq = np.einsum("caI,aq->qcI", lmesh.points[lmesh.cells], lh)
-        lp = [Poly(rng, ldim, monomials_total(ldim, 2)) for _ in range(ldim)]
+        lp = [BodyPoly(Poly(rng, ldim, monomials_total(ldim, 2)), lmesh.points) for _ in range(ldim)]
         lf = fem.Field(lreg, dim=ldim, values=np.stack([p(lmesh.points) for p in lp], axis=1))
         lg = np.stack([np.moveaxis(p.grad(lXq), -1, 0) for p in lp], 0)
         lhs = float(np.min(lmesh.points[lmesh.cells].max(1) - lmesh.points[lmesh.cells].min(1)))
@@ -483,7 +501,7 @@ def case_paths(rep):
         ru = gen.make_region(ufam, um_, uniform=True, hess=True)
         uh = np.array([ru.element.function(pt) for pt in ru.quadrature.points]).T
         uXq = np.einsum("caI,aq->qcI", um_.points[um_.cells], uh)
-        up = [Poly(rng, ud, monomials_total(ud, 1)) for _ in range(ud)]
+        up = [BodyPoly(Poly(rng, ud, monomials_total(ud, 1)), um_.points) for _ in range(ud)]
         uf = fem.Field(ru, dim=ud, values=np.stack([p(um_.points) for p in up], axis=1))
         ug = np.stack([np.moveaxis(p.grad(uXq), -1, 0) for p in up], 0)
         uu = np.stack([p(uXq) for p in up], 0)
@@ -525,7 +543,7 @@ def case_boundary_templates(fam, rep):
         el, qd = rb.element, rb.quadrature
         hq = np.array([el.function(pt) for pt in qd.points]).T
         Xq = np.einsum("caI,aq->qcI", mesh.points[rb.mesh.cells], hq)
-        polys = [Poly(rng, dim, exps) for _ in range(2)]
+        polys = [BodyPoly(Poly(rng, dim, exps), mesh.points) for _ in range(2)]
         vals = np.stack([p(mesh.points) for p in polys], axis=1)
         fld = fem.Field(rb, dim=2, values=vals)
         fs = max(1.0, maxabs(vals))
@@ -551,10 +569,10 @@ def case_fields(kind):
                 mesh, _ = gen.build_mesh(fam, geometry, rng)
                 if kind == "axisymmetric":
                     # keep the body away from the axis (R = X[:, 1] > 0)
-                    mesh = mesh.copy(points=mesh.points + np.array([0.0, 2.5 - mesh.points[:, 1].min()]))
+                    mesh = mesh.copy(points=mesh.points + np.array([0.0, 0.7 * float(np.ptp(mesh.points, axis=0).max()) - mesh.points[:, 1].min()]))
                 reg = gen.make_region(fam, mesh)
                 exps = monomials_total(2, 1 if geometry == "distorted" else gen.FAMILIES[fam]["order"])
-                polys = [Poly(rng, 2, exps) for _ in range(2)]
+                polys = [BodyPoly(Poly(rng, 2, exps), mesh.points) for _ in range(2)]
                 vals = np.stack([p(mesh.points) for p in polys], 1)
                 Xq = physical_qp(reg)
                 g2 = np.stack([np.moveaxis(p.grad(Xq), -1, 0) for p in polys], 0)
@@ -658,7 +676,7 @@ def case_variants(what):
                             reg = fem.RegionLagrange(m, order=order, dim=dim)
                         finally:
                             attach.detach_all()
-                        p = Poly(rng, dim, exps)
+                        p = BodyPoly(Poly(rng, dim, exps), m.points)
                         fld = fem.Field(reg, dim=1, values=p(m.points).reshape(-1, 1))
                         Xq = physical_qp(reg)
                         lab = "RegionLagrange(order=%d,dim=%d)/%s" % (order, dim, geometry)
@@ -667,7 +685,7 @@ def case_variants(what):
                                     maxabs(fld.interpolate()[0] - p(Xq)) / fs, 1e-10,
                                     "%s: polynomial not reproduced" % lab, unit="lagrange:interpolate", config=(lab, "interpolate"))
                         run.compare("region.lagrange", "template=%s clause=grad" % lab,
-                                    maxabs(fld.grad()[0] - np.moveaxis(p.grad(Xq), -1, 0)) / fs, 1e-9,
+                                    maxabs(fld.grad()[0] - np.moveaxis(p.grad(Xq), -1, 0)) * p.L / fs, 1e-9,
                                     "%s: polynomial gradient not reproduced" % lab, unit="lagrange:grad", config=(lab, "grad"))
                         if geometry != "curved":
                             # the template's default rule integrates products of shape-function gradients exactly on affine cells
